@@ -74,7 +74,7 @@ var iters []iter
 var pendW0, pendCt0 = -1, -1
 
 func installSignHook() {
-	dilithium.VerifSignHook = func(exit int, nonce uint16, z *[dilithium.L]dilithium.VerifPoly, w0, h *[dilithium.K]dilithium.VerifPoly, hints uint) {
+	dilithium.VerifSignHook = func(exit int, nonce uint16, c []uint8, z *[dilithium.L]dilithium.VerifPoly, w0, h *[dilithium.K]dilithium.VerifPoly, hints uint) {
 		switch exit {
 		case 12: // w0 test passed: remember its norm for this iteration's final event
 			pendW0 = maxNorm(w0[:])
